@@ -2,12 +2,16 @@
 // #included below, so every run compiles the working tree's text; private members are opened to reach the
 // cubic element's sf*/dsf*/jacobian).  The only thing that is ours is the stub behaviour (a linear map
 // stress = K.strain with an arbitrary 3x3 matrix K, components ordered rr,zz,tt as in the element code), the
-// replication of PipeTest's pressure terms and a dense LU.
+// a dense LU and the set-up of a PipeTest object without its parser (public setters; the behaviour pointer is set
+// directly).
 //
 //   driver consts                       quadrature points and weights of the three elements
 //   driver sf      < xs                 shape functions (through `interpolate`) at the given abscissae
 //   driver elem    < cases              computeStrain + updateStiffnessMatrixAndInnerForces on one element
-//   driver fe      < cases              full elastic pipe problem solved with the element routines
+//   driver asm     < cases              the REAL PipeTest::computeStiffnessMatrixAndResidual (mtest/src/PipeTest.cxx of the
+//                                       tree, compiled with this driver) on a given nodal vector: residual and stiffness
+//   driver fe      < cases              full elastic pipe problem: residual/stiffness assembled by the REAL PipeTest,
+//                                       linear system solved by our LU
 #include <cstdio>
 #include <cstdlib>
 #include <cmath>
@@ -24,6 +28,11 @@
 #include <functional>
 #include <stdexcept>
 #define private public
+#define protected public
+#include "MTest/Evolution.hxx"
+#include "MTest/SolverWorkSpace.hxx"
+#include "MTest/StudyCurrentState.hxx"
+#include "MTest/PipeTest.hxx"
 #include "MTest/Behaviour.hxx"
 #include "MTest/BehaviourWorkSpace.hxx"
 #include "MTest/CurrentState.hxx"
@@ -36,6 +45,7 @@
 #include "../src/PipeQuadraticElement.cxx"
 #include "../src/PipeCubicElement.cxx"
 #undef private
+#undef protected
 
 using mtest::real;
 
@@ -314,31 +324,78 @@ namespace {
     return true;
   }
 
+  // a PipeTest object of the tree under test, configured as `@PerformSmallStrainAnalysis true`, imposed inner and outer
+  // pressures, axial loading None / EndCapEffect, with the stub behaviour
+  struct RealPipe {
+    mtest::PipeTest t;
+    mtest::StudyCurrentState state;
+    std::shared_ptr<StubBehaviour> b = std::make_shared<StubBehaviour>();
+    size_t nn = 0;
+    void init(int et, double Ri, double Re, int ne, double Pi, double Pe, int axial) {
+      t.setInnerRadius(Ri);
+      t.setOuterRadius(Re);
+      t.setNumberOfElements(ne);
+      t.setElementType(et == 1 ? mtest::PipeMesh::LINEAR : et == 2 ? mtest::PipeMesh::QUADRATIC : mtest::PipeMesh::CUBIC);
+      t.setDefaultModellingHypothesis();
+      t.b = b;  // SingleStructureScheme::b (the parser would load a library)
+      t.performSmallStrainAnalysis();
+      t.setAxialLoading(axial == 1 ? mtest::PipeTest::ENDCAPEFFECT : mtest::PipeTest::NONE);
+      t.setInnerPressureEvolution(mtest::make_evolution(Pi));
+      t.setOuterPressureEvolution(mtest::make_evolution(Pe));
+      t.initializeCurrentState(state);
+      nn = size_t(et) * size_t(ne) + 1;
+    }
+    bool assemble(tfel::math::matrix<real>& k, tfel::math::vector<real>& r, const tfel::math::vector<real>& u) {
+      for (size_t a = 0; a != u.size(); ++a) state.u1[a] = u[a];
+      const auto res = t.computeStiffnessMatrixAndResidual(state, k, r, 0., 1.,
+                                                           mtest::StiffnessMatrixType::CONSISTENTTANGENTOPERATOR);
+      return res.first;
+    }
+  };
+
+  // assembly: input `et Ri Re ne Pi Pe axial  K(9, row major)  u(nn+1)`; output `ASM id ok`, `R id ...`, `K id ...`
+  int assembly() {
+    int id = 0;
+    int et, ne, axial;
+    double Ri, Re, Pi, Pe;
+    while (std::cin >> et >> Ri >> Re >> ne >> Pi >> Pe >> axial) {
+      RealPipe P;
+      for (int a = 0; a != 3; ++a)
+        for (int c = 0; c != 3; ++c) std::cin >> P.b->K[a][c];
+      P.init(et, Ri, Re, ne, Pi, Pe, axial);
+      const auto n = P.nn + 1;
+      tfel::math::vector<real> u(n), r(n, real(1e300));  // garbage on purpose: the real code must reset r and k
+      for (auto& v : u) std::cin >> v;
+      tfel::math::matrix<real> k(n, n, real(1e300));
+      const bool ok = P.assemble(k, r, u);
+      std::printf("ASM %d %d\nR %d", id, ok ? 1 : 0, id);
+      for (size_t a = 0; a != n; ++a) p(r[a]);
+      std::printf("\nK %d", id);
+      for (size_t a = 0; a != n; ++a)
+        for (size_t c = 0; c != n; ++c) p(k(a, c));
+      std::printf("\n");
+      ++id;
+    }
+    return 0;
+  }
+
   // full problem: input `et Ri Re ne E nu Pi Pe axial` (axial: 0 = no axial force, 1 = end cap effect)
-  // boundary terms as in PipeTest::computeStiffnessMatrixAndResidual (small strain):
-  //   r(0) -= 2 pi Pi Ri ; r(ln) += 2 pi Pe Re ; end cap: r(n) -= pi Ri^2 Pi ; r(n) += pi Re^2 Pe
+  // residual and stiffness from the REAL PipeTest::computeStiffnessMatrixAndResidual; one Newton step from u = 0 (the
+  // problem is linear), residual checked at the solution
   int fe() {
-    constexpr double pi = 3.14159265358979323846;
     int id = 0;
     int et, ne, axial;
     double Ri, Re, E, nu, Pi, Pe;
     while (std::cin >> et >> Ri >> Re >> ne >> E >> nu >> Pi >> Pe >> axial) {
-      Pipe P;
+      RealPipe P;
       const double l = nu * E / ((1 + nu) * (1 - 2 * nu)), mu = E / (2 * (1 + nu));
       for (int a = 0; a != 3; ++a)
         for (int c = 0; c != 3; ++c) P.b->K[a][c] = l + (a == c ? 2 * mu : 0.);
-      P.init(et, Ri, Re, ne);
+      P.init(et, Ri, Re, ne, Pi, Pe, axial);
       const auto n = P.nn + 1;
       tfel::math::vector<real> u(n, real(0)), r(n, real(0));
       tfel::math::matrix<real> k(n, n, real(0));
-      bool ok = true;
-      for (int i = 0; i != ne && ok; ++i) ok = P.update(k, r, u, size_t(i));
-      r(0) -= 2 * pi * Pi * Ri;
-      r(P.nn - 1) += 2 * pi * Pe * Re;
-      if (axial == 1) {
-        r(P.nn) -= pi * Ri * Ri * Pi;
-        r(P.nn) += pi * Re * Re * Pe;
-      }
+      bool ok = P.assemble(k, r, u);
       std::vector<std::vector<long double>> A(n, std::vector<long double>(n));
       std::vector<long double> rhs(n);
       for (size_t a = 0; a != n; ++a) {
@@ -348,15 +405,7 @@ namespace {
       ok = ok && solve(A, rhs);
       for (size_t a = 0; a != n; ++a) u[a] = double(rhs[a]);
       // residual and stresses at the solution
-      std::fill(r.begin(), r.end(), real(0));
-      std::fill(k.begin(), k.end(), real(0));
-      for (int i = 0; i != ne && ok; ++i) ok = P.update(k, r, u, size_t(i));
-      r(0) -= 2 * pi * Pi * Ri;
-      r(P.nn - 1) += 2 * pi * Pe * Re;
-      if (axial == 1) {
-        r(P.nn) -= pi * Ri * Ri * Pi;
-        r(P.nn) += pi * Re * Re * Pe;
-      }
+      ok = ok && P.assemble(k, r, u);
       double nr = 0;
       for (size_t a = 0; a != n; ++a) nr = std::fmax(nr, std::fabs(r[a]));  // fmax would hide NaN: test below
       for (size_t a = 0; a != n; ++a)
@@ -364,8 +413,9 @@ namespace {
       std::printf("FE %d %d %.17g\nU %d", id, ok ? 1 : 0, nr, id);
       for (size_t a = 0; a != n; ++a) p(u[a]);
       std::printf("\n");
-      for (size_t g = 0; g != P.scs.istates.size(); ++g) {
-        const auto& s = P.scs.istates[g];
+      const auto& scs = P.state.getStructureCurrentState("");
+      for (size_t g = 0; g != scs.istates.size(); ++g) {
+        const auto& s = scs.istates[g];
         std::printf("S %d", id);
         p(s.position);
         p(s.s1[0]);
@@ -388,8 +438,9 @@ int main(int argc, char** argv) {
     if (c == "consts") return consts();
     if (c == "sf") return sf();
     if (c == "elem") return elem();
+    if (c == "asm") return assembly();
     if (c == "fe") return fe();
-    std::fprintf(stderr, "usage: driver consts|sf|elem|fe\n");
+    std::fprintf(stderr, "usage: driver consts|sf|elem|asm|fe\n");
     return 2;
   } catch (std::exception& e) {
     std::fprintf(stderr, "exception: %s\n", e.what());
